@@ -10,7 +10,8 @@ Definition contrib (f0 f1 f2 a b : num) : num :=
   let sl1 := slope ((f2 - f0) * (f1 - f0)) in
   let sl2 := slope ((f2 - f0) * (f2 - f1)) in
   let c0 := clipn f0 a b in let c1 := clipn f1 a b in let c2 := clipn f2 a b in
-  if ltb b f0 || ltb f2 a then of_Z 0
+  if eqb f0 f2 then (if leb a f0 && ltb f0 b then of_Z 1 else of_Z 0)        (* flat triangle: a delta function *)
+  else if ltb b f0 || ltb f2 a then of_Z 0
   else (sqn (c1 - f0) - sqn (c0 - f0)) * (of_Z 1 / of_Z 2) * sl1 + (sqn (f2 - c1) - sqn (f2 - c2)) * (of_Z 1 / of_Z 2) * sl2.
 (* bins [e0,e1], [e1,e2], ... from a list of edges *)
 Fixpoint total (f0 f1 f2 : num) (e0 : num) (edges : list num) : num :=
